@@ -111,6 +111,46 @@ fn c11_value_order_replay() {
             break;
         }
     }
+    // C10: a sum / product built from KNOWN word parts gives exactly those parts back (the parts are words, so comparing
+    // them does not go through the accessor under test)
+    {
+        let words = [Value::u1(1), Value::u2(2), Value::u4(0xb), Value::u8(0xab), Value::u16(0xabcd), Value::u32(0xdead_beef)];
+        let tys: Vec<Arc<Final>> = (0..6).map(|n| Final::two_two_n(n).unwrap()).collect();
+        for a in &words {
+            for t in &tys {
+                let l = Value::left(a.clone(), Arc::clone(t));
+                match l.as_left() {
+                    Some(x) if &x.to_value() == a && l.as_right().is_none() => {}
+                    other => fails.push(format!("left({}, {}).as_left() gives {:?}", a, t, other.map(|x| x.to_value().to_string()))),
+                }
+                let r = Value::right(Arc::clone(t), a.clone());
+                match r.as_right() {
+                    Some(x) if &x.to_value() == a && r.as_left().is_none() => {}
+                    other => fails.push(format!("right({}, {}).as_right() gives {:?}", t, a, other.map(|x| x.to_value().to_string()))),
+                }
+                // the padded encoding is tag, padding, payload; the compact one is tag, payload
+                let pad = l.ty().bit_width() - 1 - a.ty().bit_width();
+                let mut want: Vec<bool> = vec![false];
+                want.extend(std::iter::repeat(false).take(pad));
+                want.extend(a.iter_padded());
+                if l.iter_padded().collect::<Vec<bool>>() != want {
+                    fails.push(format!("left({}, {}): padded bits are not tag, {} padding bits, payload", a, t, pad));
+                }
+                let mut wantc: Vec<bool> = vec![false];
+                wantc.extend(a.iter_padded());
+                if l.iter_compact().collect::<Vec<bool>>() != wantc {
+                    fails.push(format!("left({}, {}): compact bits are not tag, payload", a, t));
+                }
+            }
+            for b in &words {
+                let p = Value::product(a.clone(), b.clone());
+                match p.as_product() {
+                    Some((x, y)) if &x.to_value() == a && &y.to_value() == b => {}
+                    _ => fails.push(format!("product({}, {}) does not give its parts back", a, b)),
+                }
+            }
+        }
+    }
     // C10: constructors / accessors are inverse, both encodings decode back to the value and have the advertised lengths,
     // pruning to the value's own type is the identity, pruning twice equals pruning once
     for v in vals.iter().take(1500) {
